@@ -811,7 +811,7 @@ pub fn run(tier: Tier, seed: u64, replay: Option<Value>) -> i32 {
             }
         };
     }
-    let cfg = LoopCfg { cases: tier.pick(450, 15000), workers: 12, max_shrink_execs: 80, max_violations: std::env::var("FVH_MAX_VIOL").ok().and_then(|s| s.parse().ok()).unwrap_or(8) };
+    let cfg = LoopCfg { cases: tier.pick(450, 5000), workers: 12, max_shrink_execs: 80, max_violations: std::env::var("FVH_MAX_VIOL").ok().and_then(|s| s.parse().ok()).unwrap_or(8) };
     let max_len = tier.pick(25, 40);
     crate::driver::run_cases(&ev, &cfg, || history(max_len), mk, |s, ops: &Vec<Op>| run_history(s, ops), |ops| json!({"ops": ops.iter().map(op2j).collect::<Vec<_>>()}));
     {
